@@ -78,12 +78,12 @@ func c05Track(w *simWorld, sn *Snapshot, detachedSet map[string]bool) (out []Vio
 			switch {
 			case m.Meta != nil && m.Meta.Topic == "me":
 				for _, sub := range m.Meta.Sub {
-					if sub.Topic != "" && (sub.Acs.Want != "" || sub.Acs.Given != "") {
+					if sub.Topic != "" && !types.IsChannel(sub.Topic) && (sub.Acs.Want != "" || sub.Acs.Given != "") {
 						acs := sub.Acs
 						setFull(w.globalName(c, sub.Topic), &acs, "meta-sub")
 					}
 				}
-			case m.Meta != nil && m.Meta.Desc != nil && m.Meta.Desc.Acs != nil && m.Meta.Topic != "me" && m.Meta.Topic != "fnd":
+			case m.Meta != nil && m.Meta.Desc != nil && m.Meta.Desc.Acs != nil && m.Meta.Topic != "me" && m.Meta.Topic != "fnd" && !types.IsChannel(m.Meta.Topic):
 				setFull(w.globalName(c, m.Meta.Topic), m.Meta.Desc.Acs, "meta-desc")
 			case m.Ctrl != nil && m.Ctrl.Id != "":
 				s := c.byID[m.Ctrl.Id]
@@ -99,8 +99,8 @@ func c05Track(w *simWorld, sn *Snapshot, detachedSet map[string]bool) (out []Vio
 					continue // somebody else's mode (answer to {set sub user=...})
 				}
 				topic := m.Ctrl.Topic
-				if topic == "" {
-					continue
+				if topic == "" || types.IsChannel(topic) {
+					continue // a reader's subscription to chnX is another subscription than a member's to grpX
 				}
 				acs := &MsgAccessMode{}
 				acs.Want, _ = am["want"].(string)
@@ -199,13 +199,13 @@ func c05Track(w *simWorld, sn *Snapshot, detachedSet map[string]bool) (out []Vio
 				// session whose own {sub} is processed in between gets neither notice, and a {sub} that changes
 				// nothing reports no acs
 				raced := false
-				var mySub *Sent
+				var mySubs []*Sent
 				for _, sx := range c.Sents {
 					if sx.Msg != nil && sx.Msg.Sub != nil && sx.Code >= 200 && sx.Code < 300 && w.globalName(c, sx.Msg.Sub.Topic) == tname {
-						mySub = sx
+						mySubs = append(mySubs, sx)
 					}
 				}
-				if mySub != nil {
+				for _, mySub := range mySubs {
 					for _, oc := range w.clientsOf(c.User.Idx) {
 						if oc == c {
 							continue
@@ -233,13 +233,44 @@ func c05Track(w *simWorld, sn *Snapshot, detachedSet map[string]bool) (out []Vio
 						}
 					}
 				}
-				if raced {
+				// a {set sub} of the same user served while the sending session was not attached (replyOfflineTopicSetSub,
+				// topic loaded or not): only the requester is told
+				offline := detachedSet[tname+"/"+self]
+				for _, oc := range w.clientsOf(c.User.Idx) {
+					if oc == c {
+						continue
+					}
+					for _, sx := range oc.Sents {
+						if sx.Detached && sx.Msg.Set.Sub != nil && (sx.Msg.Set.Sub.User == "" || sx.Msg.Set.Sub.User == self) && sx.Code >= 200 && sx.Code < 300 && w.globalName(oc, sx.Msg.Set.Topic) == tname {
+							offline = true
+						}
+					}
+				}
+				// recorded finding (C10 p2p-presence-diverged after-partner-subscription-restored): the user deleted its own
+				// p2p subscription, the partner attaching later restores it in initTopicP2P without any {pres acs}
+				restored := false
+				if cat == types.TopicCatP2P {
+					for _, oc := range w.clientsOf(c.User.Idx) {
+						for _, sx := range oc.Sents {
+							if sx.Msg == nil || sx.Code < 200 || sx.Code >= 300 {
+								continue
+							}
+							if (sx.Msg.Leave != nil && sx.Msg.Leave.Unsub && w.globalName(oc, sx.Msg.Leave.Topic) == tname) ||
+								(sx.Msg.Del != nil && sx.Msg.Del.What == "topic" && w.globalName(oc, sx.Msg.Del.Topic) == tname) {
+								restored = true
+							}
+						}
+					}
+				}
+				if restored {
+					key = "tracked-permissions-diverged subscription-restored-by-partner"
+				} else if raced {
 					key = "tracked-permissions-diverged attach-raced-notification"
 				} else if a.NoBase {
 					// recorded finding: a refused first {sub} to a p2p topic creates the subscription while the topic
 					// loads and never announces it; the first notice the user's other sessions get is a later delta
 					key = "tracked-permissions-diverged first-told-a-delta"
-				} else if detachedSet[tname+"/"+self] {
+				} else if offline {
 					// recorded finding: a {set} from a session that is not attached is served from the store
 					// (replyOfflineTopicSetSub): only the requester is told, no {pres acs} goes to the other sessions
 					key = "tracked-permissions-diverged after-detached-set"
